@@ -41,7 +41,7 @@ QUICK_SHAPES = [
     "known-c02", "nullable-chain", "nullable-start", "nullable-mid", "nullable-end", "two-nullables", "lr2",
     "lr1-not-lalr", "dangling-else", "lex-a-aa", "lex-a-ab-b", "lex-prefix", "expr", "paren", "list-sep",
     "opt-list", "rr-conflict", "palindrome", "g7", "right-nullable", "bounded-amb", "reduce-many-empty",
-    "hidden-left-2", "g8", "lex-alt", "nullable-tails", "glr-revisit", "glr-cyclic-nested", "lalr-late-widening",
+    "hidden-left-2", "g8", "lex-alt", "nullable-tails", "glr-revisit", "glr-cyclic-nested", "lalr-late-widening", "twice-same-nt", "nullable-chain-rec", "nullable-tail-alt",
 ]
 
 
